@@ -50,7 +50,7 @@ def main():
                 "replay_cmd_template": "./bin/simcheck replay {path}",
                 "engine": "simcheck",
                 "level_claimed": {"category": "exploration", "text": text, "design_ref": f"DESIGN.md section {ref}"},
-                "level_note": "trusted base: the harness's frame encoder / CRC-24 / reference models (unit-tested against literature vectors), the chrono shim (only Utc::now() replaced), rustc/std (BufRead::lines, HashMap), clap; seeded sampling - a clean batch is evidence, not proof",
+                "level_note": "trusted base: the harness's frame encoder / CRC-24 / reference models (unit-tested against literature vectors), the patched chrono copy (only Utc::now() changed), rustc/std (BufRead::lines, HashMap), clap; seeded sampling - a clean batch is evidence, not proof",
                 "technique": TECH,
             })
         else:
@@ -60,7 +60,7 @@ def main():
         "setup_cmd": "cd /verif/sim && CARGO_NET_OFFLINE=true cargo build --offline --profile simdebug -p simcheck && CARGO_NET_OFFLINE=true cargo build --offline --profile simrelease -p simcheck",
         "hooks": {
             "guard": "squitterator_verif",
-            "enable": "rustflags --cfg squitterator_verif (set in /verif/sim/.cargo/config.toml); /repo's sources are compiled through the shadow manifest /verif/sim/shadow/Cargo.toml ([lib] path = /repo/src/lib.rs) with `chrono` replaced by the clock shim",
+            "enable": "rustflags --cfg squitterator_verif (set in /verif/sim/.cargo/config.toml); /repo's sources are compiled through the shadow manifest /verif/sim/shadow/Cargo.toml ([lib] path = /repo/src/lib.rs) with the dependency `chrono` resolved to /verif/sim/chrono-sim (chrono 0.4.40 verbatim, only Utc::now() consults the simulated clock)",
             "baseline_off_cmd": "cd /repo && cargo test --workspace --no-fail-fast --offline",
             "source_commits": hooks,
             "add_only": True,
